@@ -1,4 +1,120 @@
-// Kani harnesses mounted inside src/de.rs (child module: sees private items)
+// Kani harnesses mounted inside src/de.rs (child module: sees private items).
+//
+// C04 (skipping exactly one node), C03 (what counts as a merge key), parts of C01 (residual panic
+// sites stay unreachable) at the level of the event-buffer kernels.
+use super::*;
+
+fn loc0() -> Location {
+    Location::UNKNOWN
+}
+
+/// Event of symbolic kind with unallocated (borrowed, empty) payloads.
+/// 0 scalar, 1 seq start, 2 seq end, 3 map start, 4 map end, 5 taken
+fn ev_of(kind: u8) -> Ev<'static> {
+    match kind {
+        0 => Ev::Scalar {
+            value: Cow::Borrowed(""),
+            tag: SfTag::None,
+            raw_tag: None,
+            style: ScalarStyle::Plain,
+            anchor: 0,
+            location: loc0(),
+        },
+        1 => Ev::SeqStart {
+            anchor: 0,
+            tag: SfTag::None,
+            raw_tag: None,
+            location: loc0(),
+        },
+        2 => Ev::SeqEnd { location: loc0() },
+        3 => Ev::MapStart {
+            anchor: 0,
+            location: loc0(),
+        },
+        4 => Ev::MapEnd { location: loc0() },
+        _ => Ev::Taken { location: loc0() },
+    }
+}
+
+/// Reference: length of the well-formed node starting at `i` (strict: a sequence is closed by a
+/// sequence end, a mapping by a mapping end), None if there is no well-formed node there.
+fn ref_node_len<const N: usize>(k: &[u8; N], i: usize) -> Option<usize> {
+    if i >= N {
+        return None;
+    }
+    match k[i] {
+        0 => Some(1),
+        1 | 3 => {
+            // explicit stack of open container kinds (N <= 8)
+            let mut stack = [0u8; N];
+            let mut sp = 0usize;
+            let mut j = i;
+            while j < N {
+                match k[j] {
+                    0 => {}
+                    1 | 3 => {
+                        stack[sp] = k[j];
+                        sp += 1;
+                    }
+                    2 | 4 => {
+                        if sp == 0 {
+                            return None;
+                        }
+                        let open = stack[sp - 1];
+                        if (open == 1) != (k[j] == 2) {
+                            return None;
+                        }
+                        sp -= 1;
+                        if sp == 0 {
+                            return Some(j - i + 1);
+                        }
+                    }
+                    _ => return None,
+                }
+                j += 1;
+            }
+            None
+        }
+        _ => None,
+    }
+}
+
+fn skip_len_n<const N: usize>() {
+    let kinds: [u8; N] = kani::any();
+    let mut i = 0;
+    while i < N {
+        kani::assume(kinds[i] <= 5);
+        i += 1;
+    }
+    let evs: [Ev<'static>; N] = core::array::from_fn(|j| ev_of(kinds[j]));
+    let start: usize = kani::any();
+    kani::assume(start <= N);
+    let got = skip_one_node_len(&evs, start);
+    let want = ref_node_len(&kinds, start);
+    if let Some(w) = want {
+        assert!(got == Some(w), "a well-formed node was not skipped exactly");
+        kani::cover!(w >= 4, "nested node skipped");
+    }
+    if let Some(g) = got {
+        assert!(g >= 1 && start + g <= N, "skip length leaves the buffer");
+        // whatever was skipped starts with a node-opening event and ends with a closing one
+        assert!(kinds[start] == 0 || kinds[start + g - 1] == 2 || kinds[start + g - 1] == 4);
+    }
+    kani::cover!(want.is_none() && got.is_none(), "malformed buffer rejected");
+    std::mem::forget(evs);
+}
+
+#[kani::proof]
+#[kani::unwind(8)]
+fn c04_skip_len_6() {
+    skip_len_n::<6>()
+}
+
+#[kani::proof]
+#[kani::unwind(10)]
+fn c04_skip_len_8() {
+    skip_len_n::<8>()
+}
 
 // concrete-playback slot: bin/check writes the solver counterexample here as a unit test for native replay
 include!("/verif/.build/playback/de_pb.rs");
